@@ -149,6 +149,9 @@ func init() {
 	share("C01", "C01.40", "C18.3", "the store refuses an alert only when the limit says so, and the refusal is counted")
 	share("C02", "C02.19", "C12.13", "the per-alert cache is told about every change of a silence through the version: a stored silence is never changed in place")
 	share("C09", "C09.14", "C12.13", "the replicas are told about every change of a silence: a stored silence is never changed in place, only replaced through merge")
+	share("C14", "C14.12", "C05.20", "a version that was handed to groups and subscribers is never altered afterwards: a newer version is a new object")
+	share("C13", "C13.13", "C05.20", "what GET reports is what was stored: a stored alert is never changed in place")
+	share("C01", "C01.41", "C05.20", "the alert a group holds is the version the provider stored: nobody edits it in place")
 	share("C05", "C05.19", "C01.2", "a dispatcher started by a reload is handed the whole store, resolved alerts included: the resolution of an alert that ended before the reload is still reported")
 	share("C04", "C04.19", "C10.15", "what the de-duplication compares against is what was logged: an entry is never changed in place")
 	share("C06", "C06.13", "C01.3", "every alert is routed")
